@@ -17,7 +17,7 @@ cargo test --workspace --no-fail-fast --offline > $out/v_suite.log 2>&1
 suite_rc=$?
 passed=$(grep -E '^test result' $out/v_suite.log | awk '{s+=$4} END{print s}')
 failed=$(grep -E '^test result' $out/v_suite.log | awk '{s+=$6} END{print s}')
-cp $out/demo.rs $demo_dst
+mkdir -p $(dirname $demo_dst); cp $out/demo.rs $demo_dst
 cargo test -p $crate --offline $feat --test $tname > $out/v_demo_with.log 2>&1
 with_rc=$?
 git checkout -q -- . 
